@@ -217,7 +217,7 @@ def check_general(ts, rts, modes, acc, case, wlimit=None, with_sites_windows=Fal
         Tf = [sum(r[0] for r in Wf), sum(r[1] for r in Wf)]
         f_real = bundle(Tf)
         f_real_strict = bundle(Tf, True)
-        evl = RS.Evaluator(counts, bundle(counts.total), M_ALL)
+        evl = RS.Evaluator(counts, bundle(counts.total), M_ALL, selfcheck=True)
         Wnp = np.array(Wf)
 
         def call(f, m, strict, **kw):
